@@ -137,6 +137,19 @@ class Unknown(V):
 
 
 @dataclass(eq=False)
+class FuncV(V):
+    """A lambda / nested function value together with the environment it closes over."""
+
+    node: Any = None  # ast.Lambda or ast.FunctionDef
+    env: Any = None
+    owner: str = ""
+    src: Optional[Path] = None
+
+    def __repr__(self):
+        return f"FuncV(line {getattr(self.node, 'lineno', '?')})"
+
+
+@dataclass(eq=False)
 class Tmpl(V):
     """Text template: parts are python strings or values (holes); ("join", sep, elem) for a joined tail."""
 
@@ -527,9 +540,11 @@ class Interp:
 
     # ------------------------------------------------------------------
     # python evaluation
-    def call_function(self, fn: ast.FunctionDef, args: List[V], self_obj: Optional[Obj], owner: str, kwargs: Optional[Dict[str, V]] = None) -> V:
-        env: Dict[str, V] = {}
+    def call_function(self, fn: ast.FunctionDef, args: List[V], self_obj: Optional[Obj], owner: str, kwargs: Optional[Dict[str, V]] = None, outer: Optional[Dict[str, V]] = None) -> V:
+        env: Dict[str, V] = dict(outer) if outer else {}
         params = fn.args.args
+        if fn.args.vararg is not None:
+            env[fn.args.vararg.arg] = Seq(list(args[len(params):]))
         defaults = fn.args.defaults
         nd = len(defaults)
         for i, a in enumerate(params):
@@ -658,7 +673,10 @@ class Interp:
                 o = self.exec_block(st.body, dict(env_t), rets, owner)
                 cur = self.join_env(cur, o) if t == MAYBE else (o if o is not None else cur)
             return cur
-        if isinstance(st, (ast.FunctionDef, ast.Import, ast.ImportFrom, ast.Global, ast.Nonlocal)):
+        if isinstance(st, ast.FunctionDef):
+            env[st.name] = FuncV(st, env, owner)  # closes over the live environment (late binding, as in Python)
+            return env
+        if isinstance(st, (ast.Import, ast.ImportFrom, ast.Global, ast.Nonlocal)):
             return env
         if isinstance(st, ast.Assert):
             return env
@@ -861,6 +879,12 @@ class Interp:
             if v.lits is not None:
                 b = [bool(s) for s in v.lits]
                 return TRUE if all(b) else FALSE if not any(b) else MAYBE
+            if getattr(v, "nonempty", False):
+                return TRUE
+            node0 = getattr(v, "node", None)
+            if node0 is not None and not hasattr(v, "op") and not hasattr(v, "slice_of") and not hasattr(v, "concat") and not getattr(v, "full", False):
+                r = self.text_can_equal(node0, "")
+                return {TRUE: FALSE, FALSE: TRUE, MAYBE: MAYBE}[r]
             return MAYBE
         if isinstance(v, BoolV) and hasattr(v, "of") and isinstance(v.of[0], Operand) and v.of[1] == "is_str_expr" and self._t_stable:
             vals = self.rule_is_str(v.of[0].rule)
@@ -1066,6 +1090,12 @@ class Interp:
                     return Const(ast.literal_eval(mod.assigns[n.id]))
                 except Exception:
                     pass
+                av = mod.assigns[n.id]
+                if isinstance(av, ast.Call) and isinstance(av.func, ast.Name) and av.func.id in ("frozenset", "set", "tuple", "list") and len(av.args) == 1 and not av.keywords:
+                    try:
+                        return Const({"frozenset": frozenset, "set": frozenset, "tuple": tuple, "list": tuple}[av.func.id](ast.literal_eval(av.args[0])))
+                    except Exception:
+                        pass
         if n.id == "DEFAULT_STR_STORAGE":
             return NumV("DEFAULT_STR_STORAGE")
         return Unknown(f"name {n.id}")
@@ -1076,7 +1106,26 @@ class Interp:
             if isinstance(v, ast.Constant):
                 vals.append(str(v.value))
             else:
-                vals.append(self.ev(v.value, env, owner))
+                x_ = self.ev(v.value, env, owner)
+                spec = getattr(v, "format_spec", None)
+                conv = getattr(v, "conversion", -1)
+                if (spec is not None or conv != -1) and isinstance(x_, Const):
+                    try:
+                        sp_ = "".join(str(c.value) for c in spec.values) if spec is not None and all(isinstance(c, ast.Constant) for c in spec.values) else (None if spec is not None else "")
+                        if sp_ is not None:
+                            val_ = x_.value
+                            if conv == ord("r"):
+                                val_ = repr(val_)
+                            elif conv == ord("s"):
+                                val_ = str(val_)
+                            x_ = Const(format(val_, sp_))
+                        else:
+                            x_ = StrV(None, "formatted")
+                    except Exception:
+                        x_ = StrV(None, "formatted")
+                elif spec is not None or conv != -1:
+                    x_ = StrV(None, "formatted") if not isinstance(x_, (Operand, Obj)) else x_
+                vals.append(x_)
         lits = [frozenset([x]) if isinstance(x, str) else self.str_lits(x) for x in vals]
         if all(p is not None for p in lits):
             acc = {""}
@@ -1139,14 +1188,38 @@ class Interp:
         return Unknown("set comprehension")
 
     def ev_Lambda(self, n, env, owner):
-        return Unknown("lambda")
+        return FuncV(n, dict(env), owner)
 
-    def _display(self, elts, env, owner) -> V:
+    def apply_func(self, f: "FuncV", args: List[V], kwargs: Optional[Dict[str, V]] = None) -> V:
+        """Call a lambda / nested function value."""
+        node = f.node
+        if isinstance(node, ast.Lambda):
+            env = dict(f.env)
+            params = node.args.args
+            for i, a in enumerate(params):
+                env[a.arg] = args[i] if i < len(args) else Unknown(f"missing argument {a.arg}")
+            if node.args.vararg is not None:
+                env[node.args.vararg.arg] = Seq(list(args[len(params):]))
+            return self.ev(node.body, env, f.owner)
+        if isinstance(node, ast.FunctionDef):
+            return self.call_function(node, args, self_obj=None, owner=f.owner, kwargs=kwargs, outer=f.env)
+        return Unknown("call of a function value")
+
+    def _display(self, elts, env, owner, _pre: Optional[Dict[int, V]] = None) -> V:
         items: List[V] = []
         tail: Optional[V] = None
-        for e in elts:
+        pre = _pre or {}
+        for ei, e in enumerate(elts):
             if isinstance(e, ast.Starred):
-                v = self.ev(e.value, env, owner)
+                v = pre[ei] if ei in pre else self.ev(e.value, env, owner)
+                # a starred value that is one of several fixed lists: one display per alternative (keeps the order)
+                if isinstance(v, Union) and 1 < len(v.alts) <= 4 and all(isinstance(a_, Seq) and a_.tail is None for a_ in v.alts) and len(pre) < 3:
+                    outs = []
+                    for a_ in v.alts:
+                        p2 = dict(pre)
+                        p2[ei] = a_
+                        outs.append(self._display(elts, env, owner, p2))
+                    return mk_union(outs)
                 r = self.iter_elems(v)
                 if r is None:
                     tail = mk_union(([tail] if tail is not None else []) + [Unknown(f"star of {v!r}")])
@@ -1304,6 +1377,22 @@ class Interp:
         base = self.ev(n.value, env, owner)
         return mk_union([self.getattr(b, n.attr, owner) for b in alts_of(base)])
 
+    def _class_constant(self, cls: str, attr: str) -> Optional[V]:
+        """A constant assigned in the body of a class (or of a base class)."""
+        for ci in self.py.mro(cls):
+            for st in ci.node.body:
+                tgt = None
+                if isinstance(st, ast.Assign) and len(st.targets) == 1 and isinstance(st.targets[0], ast.Name):
+                    tgt, val = st.targets[0].id, st.value
+                elif isinstance(st, ast.AnnAssign) and isinstance(st.target, ast.Name) and st.value is not None:
+                    tgt, val = st.target.id, st.value
+                if tgt == attr:
+                    try:
+                        return Const(ast.literal_eval(val))
+                    except Exception:
+                        return None
+        return None
+
     def getattr(self, b: V, attr: str, owner: str) -> V:
         if isinstance(b, NodeV):
             if attr == "text":
@@ -1336,8 +1425,15 @@ class Interp:
                 bm = Unknown(f"bound method {b.cls}.{attr}")
                 bm.bound = (b, rm)  # type: ignore[attr-defined]
                 return bm
+            cv = self._class_constant(b.cls, attr)
+            if cv is not None:
+                return cv
             # class-level annotation only / attribute never set
             return Unknown(f"{b.cls}.{attr} not set")
+        if isinstance(b, ClassRef) and b.name in self.py.classes:
+            cv = self._class_constant(b.name, attr)
+            if cv is not None:
+                return cv
         if isinstance(b, Operand) and attr not in self.PASSIVE_ATTRS:
             x = self.expand(b)
             if not isinstance(x, Operand):
@@ -1468,7 +1564,12 @@ class Interp:
         if isinstance(sl, ast.Slice):
             lo = self.ev(sl.lower, env, owner) if sl.lower is not None else Const(None)
             hi = self.ev(sl.upper, env, owner) if sl.upper is not None else Const(None)
+            step = self.ev(sl.step, env, owner) if sl.step is not None else Const(None)
             if isinstance(b, Seq):
+                if isinstance(lo, Const) and isinstance(hi, Const) and isinstance(step, Const) and b.tail is None:
+                    return Seq(b.items[lo.value : hi.value : step.value], None)
+                if not (isinstance(step, Const) and step.value in (None, 1)):
+                    return Seq([], mk_union(b.items + ([b.tail] if b.tail is not None else [])) if (b.items or b.tail is not None) else None)
                 if isinstance(lo, Const) and isinstance(hi, Const) and b.tail is None:
                     return Seq(b.items[lo.value : hi.value], None)
                 if isinstance(lo, Const) and isinstance(hi, Const) and hi.value is not None and hi.value >= 0 and (lo.value or 0) >= 0:
@@ -1484,6 +1585,16 @@ class Interp:
                 return self.str_slice(b, lo, hi)
             return Unknown(f"slice of {b!r}")
         idx = self.ev(sl, env, owner)
+        if hasattr(b, "split_of") and isinstance(idx, Const):
+            meth, base, sargs = b.split_of
+            # s.split(sep, 1)[-1] == s.partition(sep)[2] (when sep occurs) == s[s.find(sep) + 1:] for a one-character sep
+            if isinstance(sargs[0], str) and len(sargs[0]) == 1 and ((meth == "split" and sargs[1:] == [1] and idx.value in (-1,)) ):
+                f_ = NumV(".find()")
+                f_.op = ("find", base, [Const(sargs[0])])  # type: ignore[attr-defined]
+                lo = NumV("find + 1")
+                lo.find = (base, [Const(sargs[0])], 1)  # type: ignore[attr-defined]
+                return self.str_slice(base, lo, Const(None))
+            return Unknown(f"element of str.{meth}")
         if isinstance(b, Seq):
             if isinstance(idx, Const) and isinstance(idx.value, int):
                 i = idx.value
@@ -1596,8 +1707,32 @@ class Interp:
         kwargs = {k.arg: self.ev(k.value, env, owner) for k in n.keywords if k.arg}
         if isinstance(f, ast.Name):
             name = f.id
+            if name in env and isinstance(env[name], FuncV):
+                return self.apply_func(env[name], args, kwargs)
+            if name in env and isinstance(env[name], Union) and all(isinstance(a_, FuncV) for a_ in env[name].alts):
+                return mk_union([self.apply_func(a_, args, kwargs) for a_ in env[name].alts])
             if name in env and not isinstance(env[name], ClassRef):
                 return Unknown(f"call of local {name}")
+            if name == "reduce" and len(args) in (2, 3) and isinstance(args[0], FuncV):
+                r = self.iter_elems(args[1])
+                if r is None:
+                    return Unknown("reduce over an unknown sequence")
+                fixed, tail = r
+                if len(args) == 3:
+                    acc = args[2]
+                elif fixed:
+                    acc, fixed = fixed[0], fixed[1:]
+                else:
+                    return Unknown("reduce without initial value")
+                for x in fixed:
+                    acc = self.apply_func(args[0], [acc, x])
+                if tail is not None:
+                    outs = [acc]
+                    for _ in range(2):
+                        acc = self.apply_func(args[0], [mk_union(outs) if len(outs) > 1 else acc, tail])
+                        outs.append(acc)
+                    return mk_union(outs)
+                return acc
             if name in self.py.classes:
                 return self.construct(name, args, kwargs, n.lineno, owner)
             if name == "isinstance":
@@ -1644,6 +1779,11 @@ class Interp:
                 sv = StrV(l, "str()")
                 sv.str_of = args[0]  # type: ignore[attr-defined]
                 return sv
+            if name in ("int", "float") and args and all(isinstance(a_, Const) for a_ in args):
+                try:
+                    return Const({"int": int, "float": float}[name](*[a_.value for a_ in args]))
+                except Exception:
+                    pass
             if name in ("int", "float") and args:
                 nv = NumV(f"{name}()")
                 nv.conv = (name, args)  # type: ignore[attr-defined]
@@ -1656,6 +1796,8 @@ class Interp:
                 r = self.iter_elems(args[0])
                 return Seq(r[0], r[1]) if r is not None else Unknown(f"{name}()")
             if name == "hex" and args:
+                if isinstance(args[0], Const) and isinstance(args[0].value, int):
+                    return Const(hex(args[0].value))
                 return StrV(None, "hex()")
             if name == "enumerate" and args:
                 r = self.iter_elems(args[0])
@@ -1691,7 +1833,7 @@ class Interp:
                             return self.call_function(c2.methods[f.attr], [self_obj] + args, self_obj=self_obj, owner=c2.name, kwargs=kwargs)
                     return Const(None)
                 return Unknown("super() outside a method")
-            if isinstance(f.value, ast.Name) and f.value.id == "self" and not isinstance(env.get("self"), Obj):
+            if isinstance(f.value, ast.Name) and f.value.id in ("self", "cls", "BasicVisitor") and not isinstance(env.get("self"), Obj):
                 # BasicVisitor helper: self.visit_x(node, visited_children)
                 m = self.vm.cls.methods.get(f.attr) or self.vm.cls.classmethods.get(f.attr)
                 if m is not None:
@@ -1825,6 +1967,10 @@ class Interp:
             return sv
         if meth in ("startswith", "endswith", "isdigit"):
             return BoolV(meth)
+        if meth in ("split", "rsplit", "partition") and args and all(isinstance(a, Const) for a in args):
+            u = Unknown(f"str.{meth}")
+            u.split_of = (meth, s, [a.value for a in args])  # type: ignore[attr-defined]
+            return u
         if meth in ("find", "index", "count"):
             nv = NumV(f".{meth}()")
             nv.op = (meth, s, args)  # type: ignore[attr-defined]
